@@ -173,6 +173,8 @@ ERR_KINDS_SEMANTIC = [
     "postcondition not satisfied",
     "precondition not satisfied",
     "precondition not met",
+    "unable to prove post-condition of closure",
+    "unable to prove pre-condition of closure",
     "index in bounds",
     "assertion failed",
     "invariant not satisfied",
